@@ -28,6 +28,9 @@ class Engine:
             for f, n in new:
                 f.node = n
         self.eff = make_effects(self.p)
+        from .rules import cache as _cache
+
+        _cache.ABSORBED[0] = self.absorbed if self.canonical else None
         self._cfgs = {}
         self._must = {}
         self._ccfgs = {}
